@@ -9,6 +9,7 @@
 (*   Exp    Maclaurin series until the term vanishes, reciprocal for x < 0   *)
 (*   Pow    exp(y ln x)                                                      *)
 (*   Powi   repeated checked multiplication, reciprocal for n < 0            *)
+(*   Sin / Cos / Tan   reduction by %, mirroring, 24 CORDIC rotations         *)
 (* Every operator returns [k, v, it]: k = "ok" / "err" as the function       *)
 (* returns Ok / Err, or "undef" where a plain (unchecked) operator of the    *)
 (* code would overflow -- the code's behaviour then depends on the build     *)
@@ -159,4 +160,71 @@ Powi(x, n, L) ==
           ELSE IF n > 0 THEN MAOk(lp[2], lp[3])
           ELSE IF ~Fits(MAOne(L), L) THEN MAUndef(lp[3])
           ELSE LET u == MACDiv(MAOne(L), lp[2], L) IN IF u[1] THEN MAOk(u[2], lp[3]) ELSE MAErr(lp[3])
+(* ------------------------------ sin / cos / tan -------------------------- *)
+\* the U0F128 constants are kept as the trace encoding <<neg, limbs base 2^15>> of their 128-bit patterns;
+\* T::lossy_from truncates to f fractional bits.  Big number domain only.
+ATAN128 == <<
+   <<0, 0, 0, 0, 0, 0, 11544, 10376, 2029, 201>>,
+   <<0, 0, 0, 0, 0, 16384, 23975, 1377, 22734, 118>>,
+   <<0, 0, 0, 0, 0, 8192, 8247, 31894, 23413, 62>>,
+   <<0, 0, 0, 0, 0, 24576, 1517, 9899, 27357, 31>>,
+   <<0, 0, 0, 0, 0, 20480, 20446, 30437, 32086, 15>>,
+   <<0, 0, 0, 0, 0, 5120, 19377, 23482, 32682, 7>>,
+   <<0, 0, 0, 0, 0, 13824, 28106, 10973, 32757, 3>>,
+   <<0, 0, 0, 0, 0, 5888, 30581, 21846, 32766, 1>>,
+   <<0, 0, 0, 0, 0, 23424, 23483, 27306, 32767>>,
+   <<0, 0, 0, 0, 0, 28416, 10973, 32085, 16383>>,
+   <<0, 0, 0, 0, 0, 30592, 21846, 32682, 8191>>,
+   <<0, 0, 0, 0, 0, 23488, 10922, 32757, 4095>>,
+   <<0, 0, 0, 0, 0, 10976, 21845, 32766, 2047>>,
+   <<0, 0, 0, 0, 0, 21848, 27306, 32767, 1023>>,
+   <<0, 0, 0, 0, 0, 10922, 32085, 32767, 511>>,
+   <<0, 0, 0, 0, 0, 21845, 32682, 32767, 255>>,
+   <<0, 0, 0, 0, 16384, 10922, 32757, 32767, 127>>,
+   <<0, 0, 0, 0, 8192, 21845, 32766, 32767, 63>>,
+   <<0, 0, 0, 0, 20480, 27306, 32767, 32767, 31>>,
+   <<0, 0, 0, 0, 10240, 32085, 32767, 32767, 15>>,
+   <<0, 0, 0, 0, 21504, 32682, 32767, 32767, 7>>,
+   <<0, 0, 0, 0, 10752, 32757, 32767, 32767, 3>>,
+   <<0, 0, 0, 0, 21760, 32766, 32767, 32767, 1>>,
+   <<0, 0, 0, 0, 27264, 32767, 32767, 32767>>,
+   <<0, 0, 0, 0, 32064, 32767, 32767, 16383>> >>
+K128 == <<0, 0, 0, 0, 0, 0, 964, 27176, 14966, 155>>     \* 1 / 1.6467602578923106
+FromU128(j, L) == ZFloorShr(ZJ(j), 128 - LF(L))
+TWOPI23 == 52707178        \* I9F23 bits of TWO_PI, PI, FRAC_PI_2 (consts::PI.to_bits() >> 102, 103, 104)
+PI23    == 26353589
+HPI23   == 13176794
+\* value comparison of bits a (f fractional bits) with an I9F23 constant
+GtC(a, L, c23) == IF LF(L) >= 23 THEN ZLt(ZShl(ZI(c23), LF(L) - 23), a) ELSE ZLt(ZI(c23), ZShl(a, 23 - LF(L)))
+LtC(a, L, c23) == IF LF(L) >= 23 THEN ZLt(a, ZShl(ZI(c23), LF(L) - 23)) ELSE ZLt(ZShl(a, 23 - LF(L)), ZI(c23))
+RECURSIVE Cordic(_, _, _, _, _)
+\* for i in 0..: tick; if i >= 24 break; rotate by +-atan(2^-i)
+Cordic(i, x, y, z, L) ==
+  IF i >= 24 THEN <<x, y, i + 1>>
+  ELSE LET ang == FromU128(ATAN128[i + 1], L)
+           xs  == ZFloorShr(x, i)
+           ys  == ZFloorShr(y, i)
+       IN IF ZSign(z) < 0 THEN Cordic(i + 1, ZAdd(x, ys), ZSub(y, xs), ZAdd(z, ang), L)
+          ELSE Cordic(i + 1, ZSub(x, ys), ZAdd(y, xs), ZSub(z, ang), L)
+Sin(a0, L) ==
+  LET twoPi == MAConstIn(TWOPI23, L)
+      hp    == MAConstIn(HPI23, L)
+      a1 == ZTruncRem(a0, twoPi)
+      a2 == IF GtC(a1, L, PI23) THEN ZSub(a1, twoPi) ELSE a1
+      a3 == IF LtC(a2, L, -PI23) THEN ZAdd(a2, twoPi) ELSE a2
+      a4 == IF GtC(a3, L, HPI23) THEN ZSub(hp, ZSub(a3, hp)) ELSE a3
+      a5 == IF LtC(a4, L, -HPI23) THEN ZSub(ZNeg(hp), ZAdd(a4, hp)) ELSE a4
+      c  == Cordic(0, FromU128(K128, L), Z0, a5, L)
+  IN IF ZIsZero(twoPi) THEN MAUndef(0) ELSE MAOk(c[2], c[3])
+Cos(a0, L) ==
+  LET a == ZAdd(a0, MAConstIn(HPI23, L)) IN IF Fits(a, L) THEN Sin(a, L) ELSE MAUndef(0)
+Tan(a0, L) ==
+  LET a == ZShl(a0, 1) IN
+  IF ~Fits(a, L) \/ ~Fits(MAFromInt(2, L), L) THEN MAUndef(0)
+  ELSE LET s == Sin(a, L)  c == Cos(a, L) IN
+       IF s.k # "ok" \/ c.k # "ok" THEN MAUndef(0)
+       ELSE LET den == ZAdd(MAOne(L), c.v) IN
+            IF ZIsZero(den) \/ ~Fits(den, L) THEN MAUndef(s.it + c.it)
+            ELSE LET q == ZTruncDiv(ZShl(s.v, LF(L)), den) IN
+                 IF Fits(q, L) THEN MAOk(q, s.it + c.it) ELSE MAUndef(s.it + c.it)
 =============================================================================
